@@ -143,7 +143,9 @@ def main():
         },
         "engines": [
             {"name": "tlc+replay", "path": "check", "serves_properties": sorted(CHECKS),
-             "kind_free_text": "explicit TLA+ specifications (spec/*.tla) checked with TLC; behaviours replayed on / traces recorded from the real implementation and compared with the specification (harness/)"}
+             "kind_free_text": "explicit TLA+ specifications (spec/*.tla) checked with TLC; behaviours replayed on / traces recorded from the real implementation and compared with the specification (harness/)"},
+            {"name": "apalache", "path": "spec/apalache/TrickeryInd.tla", "serves_properties": ["C20"],
+             "kind_free_text": "inductive invariant of the mode switch (Init => IndInv, IndInv /\\ Next => IndInv') discharged by apalache-mc inside ./check C20; skipped with a recorded assumption if apalache-mc is absent"}
         ],
         "checks": checks,
         "notes": "See DESIGN.md. known_findings.json lists genuine defects (known / fixed).",
